@@ -8,7 +8,7 @@ rule = sys.argv[6] if len(sys.argv) > 6 else ''
 key = sys.argv[7] if len(sys.argv) > 7 else ''
 env = dict(os.environ, GOFLAGS='-mod=mod', GOPROXY='off', GOSUMDB='off', GOTOOLCHAIN='local'); env.pop('GOWORK', None)
 def run(cmd, cwd=wt, timeout=1500):
-    p = subprocess.run(cmd, shell=True, cwd=cwd, env=env, capture_output=True, text=True, timeout=timeout)
+    p = subprocess.run(cmd, shell=True, cwd=cwd, env=env, capture_output=True, text=True, errors='replace', timeout=timeout)
     return p.returncode, (p.stdout + p.stderr)[-1500:]
 ran = []
 def step(name, cmd, want_ok, cwd=wt):
